@@ -77,7 +77,7 @@ def meta(tier):
                             symbolic="continuation mark (printable, not blank/0), comment introducer (C c * !) and first comment character, or one lexeme hole"),
                 assumptions=["outside the claim: a first statement starting with c/C/*/! in column 1 (a comment by definition); fixed-form lines ending in '&' (documented heuristic)",
                              "statements with a construct name are not wrapped (label/name prefix handling is C12)"],
-                budget_s=400 if q else 2400, unit_budget_s=60 if q else 300, witness_every=10)
+                budget_s=400 if q else 1500, unit_budget_s=60 if q else 300, witness_every=10)
 
 
 def _amp_tag(lines):
